@@ -5,6 +5,7 @@ import (
 	"fmt"
 	"iter"
 	"sort"
+	"strings"
 
 	"github.com/cilium/statedb"
 
@@ -462,7 +463,13 @@ func (wt *WTxn) applyDelete(ti int, id string, lo, hi uint64) {
 // cmpOld compares the (old, hadOld, err) tuple of a write operation with the model's.
 func (w *World) cmpOld(wt *WTxn, what string, gotOld *Obj, gotHad bool, gotErr error, wantOld *Obj, wantHad bool, wantErr string) bool {
 	if errClass(gotErr) != wantErr {
-		w.violate("C03", "op-error", "T%d %s: error %s, want %s", wt.id, what, errClass(gotErr), wantErr)
+		prop := "C03"
+		if wantErr == "ErrRevisionNotEqual" && gotErr == nil {
+			// a compare-and-* with a mismatching revision went through: it also moved the table revision,
+			// which a rejected operation must not (C09)
+			prop = w.attr("C03", "C09")
+		}
+		w.violate(prop, "op-error", "T%d %s: error %s, want %s", wt.id, what, errClass(gotErr), wantErr)
 		return false
 	}
 	if gotHad != wantHad {
@@ -499,6 +506,12 @@ func (w *World) verifyObj(wt *WTxn, ti int, id string, what string) bool {
 		return false
 	}
 	if rev != want.Rev {
+		if w.prop == "C03" {
+			// C09's matter; a C03 run goes on with the model at what the write must have produced, so that
+			// what a stale object revision does to the compare-and-* operations is still judged
+			w.probe("object-revision-differs-run-continued")
+			return true
+		}
 		w.violate("C09", "object-revision", "T%d after %s: object %q carries revision %d, the write that produced it was assigned %d", wt.id, what, id, rev, want.Rev)
 		return false
 	}
@@ -565,6 +578,10 @@ func (w *World) writeOp(t *simcore.Task, wt *WTxn) bool {
 	tc := w.tables[ti]
 	st := wt.staged[ti]
 	wt.ops++
+	if w.bulk && w.bulkOps < 4 && c.Choose(3) == 0 {
+		w.bulkOps++
+		return w.bulkOp(wt, ti)
+	}
 	t.Op = opNames[op]
 	defer func() { t.Op = "" }()
 
@@ -1276,4 +1293,63 @@ func (w *World) rejectedWriteTxn(t *simcore.Task, arg []int) bool {
 		return false
 	}
 	return !w.S.Failed()
+}
+
+// bulkOp inserts several thousand bare objects with keys outside the usual universe, or, when they are
+// there, deletes them all: under a lagging change iterator that is a backlog of thousands of retained
+// deletions which one collector round then has to remove.
+func (w *World) bulkOp(wt *WTxn, ti int) bool {
+	tc := w.tables[ti]
+	st := wt.staged[ti]
+	var present []string
+	for id := range st.Objs {
+		if strings.HasPrefix(id, "~") {
+			present = append(present, id)
+		}
+	}
+	sort.Strings(present)
+	if len(present) == 0 {
+		n := 4100 + w.C.Choose(1200)
+		for i := 0; i < n; i++ {
+			o := &Obj{ID: fmt.Sprintf("~%05d", i), Stamp: wt.id}
+			var gotErr error
+			var gotHad bool
+			if !w.guard("C03", "Insert (bulk)", func() { _, gotHad, gotErr = tc.T.Insert(wt.txn, o) }) {
+				return false
+			}
+			if gotErr != nil || gotHad {
+				w.violate("C03", "op-error", "T%d bulk Insert(%s,%q): hadOld=%v err=%v", wt.id, tc.M.Name, o.ID, gotHad, gotErr)
+				return false
+			}
+			rev, ok := w.checkRev(wt, ti, true, "Insert (bulk)")
+			if !ok {
+				return false
+			}
+			wt.applyInsert(ti, o, rev)
+		}
+		w.S.Logf("T%d bulk insert of %d objects into %s", wt.id, n, tc.M.Name)
+		w.probe("bulk-insert")
+	} else {
+		for _, id := range present {
+			var gotErr error
+			var gotHad bool
+			if !w.guard("C03", "Delete (bulk)", func() { _, gotHad, gotErr = tc.T.Delete(wt.txn, &Obj{ID: id}) }) {
+				return false
+			}
+			if gotErr != nil || !gotHad {
+				w.violate("C03", "op-error", "T%d bulk Delete(%s,%q): hadOld=%v err=%v", wt.id, tc.M.Name, id, gotHad, gotErr)
+				return false
+			}
+			before := st.Rev
+			rev, ok := w.checkRev(wt, ti, true, "Delete (bulk)")
+			if !ok {
+				return false
+			}
+			wt.applyDelete(ti, id, before, rev)
+		}
+		w.S.Logf("T%d bulk delete of %d objects from %s", wt.id, len(present), tc.M.Name)
+		w.probe("bulk-delete")
+	}
+	w.progress++
+	return true
 }
